@@ -142,6 +142,11 @@ mutual
       match ← opt (lookup scope n) ("unbound " ++ n) with
       | .val v => pure (v, st)
       | .cell i => do pure (← opt st.cells[i]? "cell", st)
+    | .list [.atom "fmix", a, b] => do
+      let x ← opt a.int? "remainder operand"
+      let y ← opt b.int? "remainder operand"
+      if y == 0 then throw (.stuck "remainder by zero") else
+      pure (.f32 (f32OfI32 (BitVec.ofInt 32 (Int.tmod x y))), st)
     | .list [.atom "arrlen", .atom n] => do
       match ← opt (lookup scope n) ("unbound " ++ n) with
       | .cell i => do
